@@ -72,6 +72,52 @@ func c12Patches() []c12Patch {
 	}
 }
 
+// c12Layout: changes whose effect on the printed bytes depends on the bookkeeping of changed regions
+// (elided context around a rewrite, statements joined or deleted, code with comments removed, insertions);
+// every ordered pair and triple of them is applied as one patch file and as separate patch files.
+var c12Layout = []string{
+	"@@\n@@\n func run() error {\n   ...\n-  setup()\n+  initialize()\n   ...\n }\n",
+	"@@\nvar f expression\nvar err identifier\n@@\n-err := f\n-if err != nil {\n+if err := f; err != nil {\n   ...\n   return ...\n }\n",
+	"@@\nvar x expression\n@@\n-log(x)\n",
+	"@@\n@@\n-open()\n+openFile(\"a\", 1)\n",
+	"@@\n@@\n initialize()\n+defer teardown()\n",
+	"@@\n@@\n-func helper() {\n+func helper2() {\n   ...\n }\n",
+	"@@\nvar x expression\n@@\n-debug(x)\n",
+	"@@\n@@\n-return nil\n+return wrap(nil)\n",
+}
+
+var c12LayoutSources = map[string]string{
+	"run.go": "package main\n\nfunc run() error {\n\tsetup()\n\t// Open it.\n\terr := open()\n\tif err != nil {\n\t\tlog(err)\n\t\treturn err\n\t}\n\treturn nil\n}\n",
+	"two.go": "package main\n\n// helper helps.\nfunc helper() {\n\tdebug(func() { // inner\n\t\tx()\n\t})\n\n\tlog(1) // gone\n}\n\nfunc run() error {\n\tsetup() // trailing\n\n\tdebug(1)\n\n\t/* block */\n\terr := open()\n\tif err != nil {\n\t\treturn err\n\t}\n\n\treturn nil\n}\n",
+}
+
+func c12LayoutPatches(tier string) []c12Patch {
+	var out []c12Patch
+	n := len(c12Layout)
+	add := func(ids ...int) {
+		var parts []string
+		name := "layout"
+		for _, i := range ids {
+			parts = append(parts, c12Layout[i])
+			name += fmt.Sprintf(":%d", i)
+		}
+		out = append(out, c12Patch{name, []string{strings.Join(parts, "\n")}})
+		out = append(out, c12Patch{name + "/files", parts})
+	}
+	for i := 0; i < n; i++ {
+		for j := 0; j < n; j++ {
+			add(i, j)
+			if tier != "thorough" && i != 0 && j != 0 {
+				continue // quick: triples that contain the elided-context change first or second
+			}
+			for k := 0; k < n; k++ {
+				add(i, j, k)
+			}
+		}
+	}
+	return out
+}
+
 func c12FileSets() [][]string {
 	return [][]string{{"m1.go", "m2.go", "n.go", "gen.go"}, {"nonl.go", "crlf.go", "ugly.go", "imp.go"}}
 }
@@ -89,6 +135,9 @@ var c12Sources = map[string]string{
 
 // which markers make which change apply
 func c12Applies(change string, src string) bool {
+	if !strings.Contains(change, "DESCTOKEN") {
+		return false // only used to decide which descriptions may be reported
+	}
 	switch {
 	case strings.Contains(change, "-f1(x)"):
 		return strings.Contains(src, "f1(")
@@ -107,6 +156,17 @@ func c12Applies(change string, src string) bool {
 }
 
 func c12Gen(tier string, emit func(any)) {
+	for _, p := range c12LayoutPatches(tier) {
+		for mask := 1; mask < 4; mask++ {
+			files := map[string]string{}
+			for i, n := range []string{"run.go", "two.go"} {
+				if mask&(1<<i) != 0 {
+					files[n] = c12LayoutSources[n]
+				}
+			}
+			emit(&C12Case{PatchID: p.id, Patches: p.files, Files: files, Args: "dot"})
+		}
+	}
 	for _, p := range c12Patches() {
 		for _, set := range c12FileSets() {
 			for mask := 1; mask < 16; mask++ {
